@@ -16,7 +16,7 @@ LEVEL = 'model_checking'
 TECHNIQUE = ('bounded exhaustive enumeration of (program, pattern/template, nested, count, on, loop, back) on the real sub()/subn(), each '
              'result compared with a reference pure-AST transformer (structure, counts), C01 and line preservation outside the '
              'substituted statements')
-LEVEL_TEXT = ('17 programs x 13 (pattern, template) pairs (single-node, whole-match, swap, unwrap, slice, multi-node Dict, statement with '
+LEVEL_TEXT = ('18 programs x 16 (pattern, template) pairs (single-node, whole-match, swap, unwrap, slice, multi-node Dict, statement with '
               'slice captures, identity) x all combinations of nested/count/on/loop/back that the reference defines are executed on the '
               'real code and compared with the reference transformer')
 LEVEL_NOTE = ('trusted: CPython ast (unparse->parse normal form) and the reference transformer written from the documented semantics '
@@ -24,7 +24,7 @@ LEVEL_NOTE = ('trusted: CPython ast (unparse->parse normal form) and the referen
 RULE = ('enum: case = (program, rule, settings); non-trivial = distinct cases with >= 1 substitution; states = distinct result sources; '
         'traces = cases compared with the reference')
 ASSUMPTIONS = ['count limits are compared only for nested=False (walk order of the new tree is otherwise template dependent)']
-BOUNDS = {'quick': '17 programs x 13 rules x nested {F,T} x on {enter, leave} + count {1,2} x back {F,T} (nested=False) + loop 2 (unwrap rule)',
+BOUNDS = {'quick': '18 programs x 16 rules x nested {F,T} x on {enter, leave} + count {1,2} x back {F,T} (nested=False) + loop 2 (unwrap rule)',
           'thorough': 'same (the space is small and completed in quick)'}
 
 PROGS = [
@@ -45,6 +45,7 @@ PROGS = [
     "def g(a, b=2, /, c=3): pass  # c7\ndef h(j, k='é', **kw):\n    pass",
     "trace(cmd, level=2, *args)\nlog(a, *b, k=c, **d)\nrun(x)\nn()",
     "t(k=1, *a, *b, j=2)\nu(*v, w, x=y)  # c8\nz = p(q, r=s(*t, u=v, *w), **k)",
+    "t = sum(x for x in xs)\nu = f((y for y in ys), z)\nv = any(\n    w for w in ws\n)",
 ]
 for _p in PROGS:
     ast.parse(_p)
@@ -116,6 +117,14 @@ def rules(M):
                             lambda n: ast.Call(func=T(name('wrapped')), args=[x for x in sorted(list(n.args) + list(n.keywords), key=lambda x: (x.lineno, x.col_offset))[:-1] if not isinstance(x, ast.keyword)],
                                                keywords=[x for x in sorted(list(n.args) + list(n.keywords), key=lambda x: (x.lineno, x.col_offset))[:-1] if isinstance(x, ast.keyword)], _tmpl=True),
                             'wrapped(__FST_init)', False)
+    # templates written inside grouping parentheses (the usual way to write a multi-line template), matched node shares its
+    # parentheses with the enclosing call
+    R['genexp->list'] = (M.MGeneratorExp(), lambda n: isinstance(n, ast.GeneratorExp),
+                         lambda n: ast.Call(func=T(name('list')), args=[n], keywords=[], _tmpl=True), '(list(__FST_))', False)
+    R['genexp->or'] = (M.MGeneratorExp(), lambda n: isinstance(n, ast.GeneratorExp),
+                       lambda n: ast.BoolOp(op=ast.Or(), values=[n, T(ast.Tuple(elts=[], ctx=ast.Load()))], _tmpl=True), '(__FST_ or\n ())', False)
+    R['name->par'] = (M.MName(ctx=ast.Load), lambda n: isinstance(n, ast.Name) and isinstance(n.ctx, ast.Load),
+                      lambda n: ast.BinOp(left=n, op=ast.Add(), right=T(ast.Constant(value=0)), _tmpl=True), '(__FST_ +\n 0)', False)
     R['def->wrapper'] = (M.MFunctionDef(args=M.M(a=...)), lambda n: isinstance(n, ast.FunctionDef), wrapper,
                          'def wrapper(__FST_a):\n    return impl(__FSS_a)', False)
     return R
@@ -296,7 +305,7 @@ def run_case(fst, M, pi, rname, st, res):
 
 RULE_NAMES = ['name->log', 'binop->f', 'binop-swap', 'call-unwrap', 'expr-identity', 'list-slice', 'dict-mid', 'if-swap', 'stmt-identity',
               'def->wrapper',
-              'call-args-tail', 'call-_args-tail', 'call-_args-init']
+              'call-args-tail', 'call-_args-tail', 'call-_args-init', 'genexp->list', 'genexp->or', 'name->par']
 
 
 def shards(tier):
